@@ -454,6 +454,64 @@ def canon_ext_fields(o):
     return o
 
 
+# ------------------------------------------------------------------ substitution groups (Gen/Subst.lean)
+def gen_subst_case(rng):
+    p = G.gen_particle(rng, distinct=["a", "b", "c", "d", "e"])
+    if p is None or "elem" in p:
+        return None
+    names = G.particle_names(p)
+    refs = [n for n in names if rng.random() < 0.6]
+    members = ["m1", "m2", "m3", "m4"][: rng.randint(0, 4)]
+    subs = []
+    for m in members:
+        heads = refs + [x for x, _ in subs]
+        if heads:
+            subs.append([m, rng.choice(heads)])
+    return {"particle": p, "refs": refs, "subs": subs}
+
+
+def gen_subst_sites(rng, tier):
+    for _ in range(n_cases(tier, 250, 8000)):
+        a = gen_subst_case(rng)
+        if a is None:
+            continue
+        try:
+            sites = G.real_stage(G.real_stage(G.real_xsd_sites(G.particle_xsd(a["particle"])), "calc"), "effective")
+        except Exception:  # noqa: BLE001
+            continue
+        yield {"sites": sites, "refs": a["refs"], "subs": a["subs"]}
+
+
+def impl_subst_sites(a):
+    try:
+        return ok(G.real_subst_sites(a["sites"], a["subs"], a["refs"]))
+    except Exception as e:  # noqa: BLE001
+        return err("LEAK:" + type(e).__name__)
+
+
+def canon_by_name(o):
+    if isinstance(o, dict) and "ok" in o:
+        return {"ok": G.by_name(o["ok"])}
+    return o
+
+
+def gen_subst_fields(rng, tier):
+    for _ in range(n_cases(tier, 70, 3000)):
+        a = gen_subst_case(rng)
+        if a is not None:
+            yield a
+
+
+def impl_subst_fields(a):
+    g = CG.run_pipeline({"s.xsd": G.particle_xsd(a["particle"], refs=a["refs"], subs=[tuple(x) for x in a["subs"]])})
+    try:
+        if g.error is not None:
+            return err("GEN:" + type(g.error).__name__)
+        return ok(field_shapes(g.classes()["R"]))
+    finally:
+        g.close()
+
+
 CORRS = [
     Corr("gen.xsd_sites", gen_sites, impl_sites, canon=canon_sites, describe="SchemaParser+SchemaMapper element sites and paths vs model"),
     Corr("gen.calc_paths", stage_gen("calc"), stage_impl("calc"), describe="CalculateAttributePaths.process vs model"),
@@ -485,6 +543,12 @@ CORRS = [
          describe="complexContent restriction: whole real pipeline + stand-in renderer, the dataclass fields of base and derived class vs model"),
     Corr("gen.ext_fields", gen_ext, impl_ext_fields, canon=canon_ext_fields, compare=lambda m, i, a: "unmodelled" in i or m == i,
          describe="complexContent extension: whole real pipeline + stand-in renderer, list-ness / requiredness of inherited + own fields of the derived class vs model"),
+    Corr("gen.subst_sites", gen_subst_sites, impl_subst_sites, canon=canon_by_name,
+         nontrivial=lambda a, o: bool(a["subs"]),
+         describe="AddAttributeSubstitutions.process on a constructed class in a real container (global elements with substitutionGroup) vs model"),
+    Corr("gen.subst_fields", gen_subst_fields, impl_subst_fields, canon=canon_fields,
+         nontrivial=lambda a, o: bool(a["subs"]),
+         describe="substitution groups: whole real pipeline + stand-in renderer: list-ness / requiredness of the fields (head and members) vs model"),
     Corr("c02.e2e", gen_e2e, impl_e2e, spec=spec_e2e,
          describe="spec-level: schema (typed elements, unions) -> real pipeline under default / compound-field / output-only options -> strict parse of valid documents -> re-serialise; expected: faithful"),
 ]
@@ -531,8 +595,10 @@ def multi_site(p, n):
     return G.particle_names(p).count(n) > 1
 
 
-def order_promised(p, top=True):
-    """every repeating group is a choice of single elements, or the top-level sequence of single elements"""
+def order_promised(p, top=True, heads=()):
+    """every repeating group is a choice of single elements, or the top-level sequence of single elements.
+    `heads`: element references whose element heads a substitution group with members: such a reference is
+    an (implicit) choice between the head and the members, not a single element"""
     if "elem" in p:
         return True
     if "choice" in p:
@@ -542,8 +608,8 @@ def order_promised(p, top=True):
     if mx > 1:
         # "single elements": each member occurs exactly once per iteration (with optional or
         # repeating members the rolling interleave of sequence fields cannot tell iterations apart)
-        return top and all("elem" in k and k["elem"][1:] == [1, 1] for k in kids)
-    return all(order_promised(k, False) for k in kids)
+        return top and all("elem" in k and k["elem"][1:] == [1, 1] and k["elem"][0] not in heads for k in kids)
+    return all(order_promised(k, False, heads) for k in kids)
 
 
 def oracle_docs(a):
@@ -554,14 +620,15 @@ def oracle_docs(a):
     from xsdata.formats.dataclass.serializers import XmlSerializer
 
     p, words, types = a["particle"], a["words"], a.get("types")
-    xsd = G.particle_xsd(p, types=types)
+    xsd = G.particle_xsd(p, types=types, refs=a.get("refs", ()), subs=[tuple(x) for x in a.get("subs", ())])
     try:
         schema = etree.XMLSchema(etree.fromstring(xsd.encode()))
     except etree.XMLSchemaParseError:
         return None  # not a valid schema (e.g. non-deterministic content model): outside the property
     passes = [({}, False)]
+    heads = {h for _, h in a.get("subs", ()) if h in a.get("refs", ())}
     for extra in a.get("configs", []):
-        passes.append((extra, bool(extra.get("compound_fields")) and order_promised(p)))
+        passes.append((extra, bool(extra.get("compound_fields")) and order_promised(p, heads=heads)))
     reference = None
     for opts, ordered in passes:
         g = CG.run_pipeline({"s.xsd": xsd}, **opts)
@@ -931,6 +998,37 @@ def gen_derived(rng, tier):
                "config": {"compound_fields": True} if rng.random() < 0.2 else {}}
 
 
+def gen_subst_docs(rng, tier):
+    """element references whose elements head substitution groups: in the documents every occurrence of a
+    reference is the head or a (transitive) member of its group"""
+    n = 0
+    while n < n_cases(tier, 60, 100000):
+        n += 1
+        a = gen_subst_case(rng)
+        if a is None or not a["subs"]:
+            continue
+        heads = {}
+        for m, h in a["subs"]:
+            heads.setdefault(h, []).append(m)
+
+        def closure(h):
+            out = [h]
+            for m in heads.get(h, []):
+                out += closure(m)
+            return out
+
+        words = []
+        for _ in range(5):
+            w = G.sample_word(rng, a["particle"])
+            words.append([rng.choice(closure(x)) if x in a["refs"] else x for x in w])
+        cfgs = [{"compound_fields": True}] if rng.random() < 0.3 else []
+        yield {"particle": a["particle"], "refs": a["refs"], "subs": a["subs"], "words": words, "types": None, "configs": cfgs}
+
+
+def covered_subst(a, msg):
+    return None  # element names are distinct
+
+
 def covered_groups(a, msg):
     return None  # element names are distinct inside the group: the duplicate-site finding cannot apply
 
@@ -960,6 +1058,7 @@ ORACLES = [
     Oracle("c02.gschema_docs", gen_gschema_docs, oracle_gschema, covered=covered_gschema),
     Oracle("c02.attr_docs", gen_attr_docs, oracle_attr_docs),
     Oracle("c02.derived_docs", gen_derived, oracle_derived),
+    Oracle("c02.subst_docs", gen_subst_docs, oracle_docs, covered=covered_subst),
 ]
 
 
